@@ -137,6 +137,18 @@ func ZZ_L1() {
 	}
 
 	budgetHit := mon.crashes > int(opts.MaxRestarts)
+	// scenario: a user message sent after a graceful Poison call panicked, i.e. the
+	// panic happened while the process drained the batch behind the pill
+	drainCrash := false
+	for _, rec := range mon.recs {
+		if rec.kind == zzKUser && rec.crashed {
+			for _, r := range pills {
+				if r.graceful && rec.seq >= r.usersBefore {
+					drainCrash = true
+				}
+			}
+		}
+	}
 	alive := e.Registry.get(p.pid) != nil
 
 	switch prop {
@@ -146,7 +158,7 @@ func ZZ_L1() {
 		if escaped {
 			return
 		}
-		zzCheckDelivery(mon, sent, len(pills) == 0 && alive)
+		zzCheckDelivery(mon, sent, len(pills) == 0 && alive, drainCrash)
 		n, ordOK := sink.countRestarted()
 		zzrt.Assert(n == mon.crashes, "C05:one-ActorRestartedEvent-per-crash")
 		zzrt.Assert(ordOK, "C05:restart-count-increments")
@@ -191,6 +203,8 @@ func ZZ_L1() {
 				switch {
 				case r.pillsBefore > 0:
 					zzrt.Fail("C07:stop-context-never-done[second-pill]")
+				case drainCrash:
+					zzrt.Fail("C07:stop-context-never-done[panic-while-draining-behind-poison-pill]")
 				case mon.crashes > r.crashedYet:
 					zzrt.Fail("C07:stop-context-never-done[crash-while-stopping]")
 				default:
@@ -232,7 +246,7 @@ func ZZ_L1() {
 // zzCheckDelivery: user messages are handed to Receive at most once, in send
 // order, with the payload and sender given at the send; when nothing stopped
 // the actor, exactly once.
-func zzCheckDelivery(mon *zzMon, sent []zzSent, exactlyOnce bool) {
+func zzCheckDelivery(mon *zzMon, sent []zzSent, exactlyOnce, drainCrash bool) {
 	last := -1
 	n := 0
 	for _, r := range mon.recs {
@@ -241,9 +255,10 @@ func zzCheckDelivery(mon *zzMon, sent []zzSent, exactlyOnce bool) {
 		}
 		n++
 		if r.seq <= last {
-			if r.seq == last || true {
-				zzrt.Fail("C05:message-redelivered-or-reordered")
+			if drainCrash {
+				zzrt.Fail("C05:message-redelivered-or-reordered[panic-while-draining-behind-poison-pill]")
 			}
+			zzrt.Fail("C05:message-redelivered-or-reordered")
 		}
 		last = r.seq
 		if r.seq >= 0 && r.seq < len(sent) {
